@@ -1,14 +1,17 @@
 /-
   C08 — the generic cut lemma for stream parsers over a transport that ends or fails.
 
-  `Cut p`: whenever `p` succeeds on a stream (for some transport error `t0`) having consumed `n` bytes, then
+  `CutG E p`: whenever `p` succeeds on a stream (for some transport error `t0`) having consumed `n` bytes, then
   on EVERY prefix `take k` of that stream and for EVERY transport error `t`:
     * `k ≥ n`  →  the same value, remainder `take (k - n) rest`     (prefix-monotone; success never depends on `t`)
-    * `k < n`  →  an error whose root cause is the transport's: `root t`; for a stream that ENDS (`t = 0`, io.EOF)
-                  possibly io.ErrUnexpectedEOF (`root 1`) instead — never a value, never another error.
-  `Cut` holds for the primitives (`readFullE`, `copyNE`) and is closed under `bind`, `pure`, branching, lifting of
+    * `k < n`  →  an error whose root cause satisfies `E t`:
+         `Cut  = CutG endFull` (io.ReadFull rule): `root t`; for a stream that ENDS (`t = 0`, io.EOF) possibly
+                                                   io.ErrUnexpectedEOF (`root 1`) instead;
+         `CutN = CutG endCopy` (io.CopyN rule):    exactly `root t`
+       — never a value, never another error.
+  It holds for the primitives (`readFullE`, `copyNE`) and is closed under `bind`, `pure`, branching, lifting of
   stream-independent computations and under every error-mapping that PRESERVES THE CAUSE (`Wrap`, `WithMessage`):
-  a wrap site that swallows or replaces the transport's error is exactly what makes `Cut` unprovable.
+  a wrap site that swallows or replaces the transport's error is exactly what makes it unprovable.
 -/
 import Oryx.Proofs.Errors
 namespace Oryx.Errors
